@@ -22,8 +22,8 @@ ANCHOR_FILES = ["src/ropt/ensemble_evaluator/_gradient.py", "src/ropt/ensemble_e
 RULE = ("case = generated affine ensemble + configuration, run on the combined and the split path; non-trivial if gradients were reported and the conditioning "
         "premise held for every contributing realization (merged: premise of the statement after failures); distinct key = (case index, path)")
 ASSUMPTIONS = ["merged estimation is only judged when realizations are identical, or perturbations are shared and no individual perturbation of a contributing realization failed"]
-REQUIRED = {"quick": {"grad_entries_compared": 3808, "fixed_entries_zero_checked": 1500, "merged_judged": 150, "stddev_judged": 200, "with_failed_perturbations_judged": 100, "filtered_judged": 150, "with_variable_scaling_judged_candidates": 400, "moved_point_functions_recomputed": 1000, "__nontrivial__": 1056},
-            "thorough": {"grad_entries_compared": 111514, "fixed_entries_zero_checked": 40000, "merged_judged": 4000, "stddev_judged": 5000, "with_failed_perturbations_judged": 3000, "filtered_judged": 4000, "with_variable_scaling_judged_candidates": 12000, "moved_point_functions_recomputed": 30000, "__nontrivial__": 30000}}
+REQUIRED = {"quick": {"grad_entries_compared": 3808, "fixed_entries_zero_checked": 1500, "merged_judged": 150, "stddev_judged": 200, "with_failed_perturbations_judged": 100, "filtered_judged": 150, "with_variable_scaling_judged_candidates": 400, "small_unit_functions_judged": 300, "moved_point_functions_recomputed": 1000, "__nontrivial__": 1056},
+            "thorough": {"grad_entries_compared": 111514, "fixed_entries_zero_checked": 40000, "merged_judged": 4000, "stddev_judged": 5000, "with_failed_perturbations_judged": 3000, "filtered_judged": 4000, "with_variable_scaling_judged_candidates": 12000, "small_unit_functions_judged": 9000, "moved_point_functions_recomputed": 30000, "__nontrivial__": 30000}}
 N = {"quick": 2000, "thorough": 60000}
 RTOL = 1e-6
 
@@ -94,6 +94,13 @@ def gen_spec(rng):
     spec["_shared"] = shared or R == 1
     a = rng.normal(size=(R, F, V))
     b = rng.normal(size=(R, F))
+    if rng.random() < 0.25:
+        # functions in small units (1e-4 ... 1e-10): exactness does not depend on the numeric scale of a function
+        for j in range(F):
+            if rng.random() < 0.6:
+                k = 10.0 ** -float(rng.integers(4, 11))
+                a[:, j, :] *= k
+                b[:, j] *= k
     if identical:
         a[:] = a[0]
         b[:] = b[0]
@@ -256,7 +263,15 @@ def judge_gradient(obs, spec, cfg, gres, fvals, pvals, tag, judge_merged_values=
             obs.count("filtered_judged")
         if not np.all(psucc[contrib]) or failed_g.any():
             obs.count("with_failed_perturbations_judged")
-        scale = 1.0 + np.max(np.abs(want))
+        # tolerance relative to the slopes of this function (its units are the user's business: a function in small units has a
+        # small gradient that is just as exact) plus the rounding of the finite differences themselves
+        slope_scale = float(np.max(np.abs(slopes[contrib]))) if contrib.size else 0.0
+        fmag = float(max(np.nanmax(np.abs(np.where(np.isnan(fvals[:, j]), 0.0, fvals[:, j]))), np.nanmax(np.abs(np.where(np.isnan(pvals[..., j]), 0.0, pvals[..., j])))))
+        dnz = np.abs(D[contrib])[np.abs(D[contrib]) > 0]
+        dtyp = float(np.median(dnz)) if dnz.size else 1.0
+        scale = max(float(np.max(np.abs(want))), slope_scale) + 1e5 * np.finfo(float).eps * fmag / dtyp / RTOL
+        if fmag < 1e-3:
+            obs.count("small_unit_functions_judged")
         if not np.all(np.abs(got - want) <= RTOL * scale):
             model = None
             if spec.get("merge") and est == "mean":
